@@ -107,6 +107,8 @@ int main() {
       puts(out.str().c_str());
     } else if (tag == "E") {
       run_e2e(in);
+    } else if (tag == "S") {
+      run_subdiv(in);
     }
     fflush(stdout);
   }
